@@ -3,29 +3,29 @@
 import json, subprocess
 
 CLAIMS = {
- "C01": ("sibling-schema agreement over typed AST (fragger/decorate/restore), entry-point reachability and flag/FileSet dataflow, per-file scoping rules of the fragment pass (state allocated per file, also when written through local closures, avoided line ranges span one entity and are counted in line breaks of the text, not in bytes of scanner-normalised text, attachment searches stop at file boundaries, search loops separate found from not found), kind-world path conditions on the hanging-indent rule of link() (clauses are searched at the indent of their body), line-state machine of the restorer incl. content-end tracking (a line-break decoration never starts the new line where the restored content ends)",
-         "Exhaustive static comparison of the three converters for all 54 node types plus entry-point rules: necessary conditions of byte-exact round trip, decided for all inputs; byte equality itself goes through go/printer and is not decided. One known finding (column-1 //line directives are printed indented).", "4 C01"),
+ "C01": ("sibling-schema agreement over typed AST (fragger/decorate/restore), entry-point reachability and flag/FileSet dataflow, per-file scoping rules of the fragment pass (state allocated per file, also when written through local closures, avoided line ranges span one entity and are counted in line breaks of the text, not in bytes of scanner-normalised text, attachment searches stop at file boundaries, search loops separate found from not found), kind-world path conditions on the hanging-indent rule of link() (clauses are searched at the indent of their body), line-state machine of the restorer incl. content-end tracking (a line-break decoration never starts the new line where the restored content ends), the comment-field rule of the parser (no Comment field behind a multi-line raw string), no position inserted between a comment and the token after it",
+         "Exhaustive static comparison of the three converters for all 54 node types plus entry-point rules: necessary conditions of byte-exact round trip, decided for all inputs; byte equality itself goes through go/printer and is not decided. Two known findings (column-1 //line directives are printed indented; a multi-line comment glued to the package clause is reformatted).", "4 C01"),
  "C02": ("locality analysis of every render operand + restorer field-write inventory + decorate/Clone carriage rules + clause-kind symmetry of the attachment conditions",
          "Decides that whatever is attached to a node travels with it (rendering reads only the node's own storage; Clone and decorate carry it); which node a comment is attached to is decided by positional heuristics in link() and is NOT decided.", "4 C02"),
- "C03": ("field-completeness and sibling agreement over go/types struct facts + typed AST; line-discovery rules of the fragment pass: text extents never taken from len(text) or ast End() of comments/literals (the scanner strips carriage returns), emptiness of a line never decided by a fixed byte distance; line-state machine of the restorer with content-end tracking",
-         "Decides that no token/child/value field of any go/ast node type is dropped in either direction and that no converter assertion can fail; does not decide text equality after go/printer. One known finding (empty lines other than a single \\n byte — CRLF files, blanks — are not recognised; the working repair contradicts an existing test).", "4 C03"),
+ "C03": ("field-completeness and sibling agreement over go/types struct facts + typed AST; line-discovery rules of the fragment pass: text extents never taken from len(text) or ast End() of comments/literals (the scanner strips carriage returns), emptiness of a line never decided by a fixed byte distance; line-state machine of the restorer with content-end tracking; comment-group rule (comments without an empty line between them share a group)",
+         "Decides that no token/child/value field of any go/ast node type is dropped in either direction and that no converter assertion can fail; does not decide text equality after go/printer. Two known findings (empty lines other than a single \\n byte — CRLF files, blanks — are not recognised; the working repair contradicts an existing test; a multi-line comment glued to the package clause is reformatted).", "4 C03"),
  "C04": ("render-site analysis of the generated restorer against go/types Decs structs, fragger order and listing/accessor",
          "Each decoration point rendered exactly once, unconditionally, after its namesake; listing/accessor clauses decided; placement is relative to synthetic positions, not through go/printer.", "4 C04"),
  "C05": ("abstract interpretation of the restorer's line-break state machine: applySpace over its complete 24-class input partition, applyDecorations against a reference machine by product fixpoint over all decoration lists (5 decoration classes x 16 environments), plus the symbolic effect of every line-break block over the entry cursor (recorded line start, exit cursor)",
          "Decides the restorer's half of the non-additive spacing rule (number of line breaks handed to go/printer per SpaceType and fresh-line state); the visible max(After,Before) outcome is produced by go/printer and is not decided.", "4 C05"),
  "C06": ("per-field completeness + alias-freedom analysis of Clone against restore's reads and go/types struct facts",
          "Decides Clone completeness/alias-freedom and duplicate rejection structurally for every node type.", "4 C06"),
- "C07": ("structural rules on updateImports/restoreIdent: discovery scan, deterministic ordering (map-range classification, comparator totality), conflict-set/chosen-name agreement, alias flow, single writer/reader of the name table, selector layout",
+ "C07": ("structural rules on updateImports/restoreIdent: discovery scan, deterministic ordering (map-range classification, comparator totality), conflict-set/chosen-name agreement, alias flow, single writer/reader of the name table, selector layout; roles of blank / dot / cgo imports on path conditions (R-ROLE), removal rules for declarations (marked only when empty, kept exactly when unmarked, a declaration that receives a new spec is not marked), parenthesis flags paired and cleared only for one spec without comments, vendor-stripped local-path comparison",
          "Necessary conditions of correct import management decided for all configurations; exactness of the import set, block layout preservation and byte output are not decided. One known finding (a path imported by two specs of one file).", "4 C07"),
- "C08": ("CFG rule on updateImports (mutation-free path, no store before an error return) + change-guard rule on every re-sort/re-spacing/re-parenthesising (path conditions) + resolver-domain rule + constant propagation through mergeDecorations against the restorer's spacing state machine + slot-order rule on decorateSelectorExpr (reaching definitions) + selector layout agreement",
+ "C08": ("CFG rule on updateImports (mutation-free path, no store before an error return) + change-guard rule on every re-sort/re-spacing/re-parenthesising (path conditions) + resolver-domain rule + constant propagation through mergeDecorations against the restorer's spacing state machine + slot-order rule on decorateSelectorExpr (reaching definitions) + selector layout agreement + alias-kept rule (an alias is dropped only when none was requested)",
          "Necessary conditions of transparency decided for all inputs; byte equality and resolver accuracy are not decided. One known finding (a path imported by two specs of one file is rewritten).", "4 C08"),
- "C09": ("role-filter exhaustiveness (avoid table vs static field types in both converters), carriage rule (resolver answer and selected name stored on every returning path), path-condition specifications (propositional equivalence of return conditions over reaching definitions) of resolvePath, gotypes/goast ResolveIdent and goast's import table (callback or loop form, with a pruning rule: every import spec reaches the table), vendor anchoring, file-argument provenance, error discipline",
+ "C09": ("role-filter exhaustiveness (avoid table vs static field types in both converters), carriage rule (resolver answer and selected name stored on every returning path), path-condition specifications (propositional equivalence of return conditions over reaching definitions) of resolvePath, gotypes/goast ResolveIdent and goast's import table (callback or loop form, with a pruning rule: every import spec reaches the table), vendor anchoring, file-argument provenance (a nil file is an error, not a dereference), error discipline",
          "Decides the structural part of 'paths exactly on remote references' (which positions may ever be resolved, vendor stripping on element boundaries, errors surfacing); the classification of an identifier is a runtime fact about go/types objects and is not decided. The clause-presence rule is a frozen-fragment rule and fires on rewrites of the two small resolvers.", "4 C09"),
  "C10": ("composition of carriage rules over the typed AST: which identifier positions may be resolved (role filter), path-condition specification of resolvePath and the two decorator resolvers, dataflow rule that the resolver's answer and the selected name are stored on every returning path (reaching definitions + path conditions), per-field Clone completeness, and on the restore side the discovery scan, every-missing-import-added, unique-name, alias-flow, single-writer/reader and selector-construction rules",
          "Decides only structural necessary conditions: a reference is recorded, carried and re-bound as (package path, object name), independent of the import names of the file it came from. That the moved code type-checks and denotes the same objects needs a type checker over output programs and is not decided. One known finding (a path imported by two specs of one file).", "4 C10"),
  "C11": ("allocation/registration ordering analysis of both converters (event order, non-nil keys, memo lookup)",
          "Decides the node-map laws for all inputs by induction over the converter cases.", "4 C11"),
- "C12": ("cursor/position-store/line-table rules over the typed AST of the restorer (hand-written and generated; offsets as sums over reaching definitions, line-break blocks by symbolic effect), statement-order rule on RestoreFile, escape analysis of the per-file buffers (a truncated buffer must not have been handed out), declaration-order rule against go/ast structs",
+ "C12": ("cursor/position-store/line-table rules over the typed AST of the restorer (hand-written and generated; offsets as sums over reaching definitions, line-break blocks by symbolic effect), statement-order rule on RestoreFile, escape analysis of the per-file buffers (a truncated buffer must not have been handed out), value rule on File.FileStart/FileEnd (base and base+size of the registered file, resolved through helper parameters), file size covers comments and line starts, line starts inside texts recorded for exactly the newline characters, declaration-order rule against go/ast structs",
          "Decides cursor monotonicity, that positions are cursor-or-NoPos, base-relative strictly growing line offsets, append-only comments, file registration covering all positions; rank equality with a re-parse is not decided. Three known defects, listed as four findings (Extras post-pass at its two sites, TypeSpec alias order, RangeStmt.Range never stored).", "4 C12"),
  "C13": ("case-by-case comparison of dst.Walk with go/ast.Walk (GOROOT source) and the dst struct definitions",
          "Decides the whole statement by structural induction over Walk's cases.", "4 C13"),
@@ -33,12 +33,12 @@ CLAIMS = {
          "Same code as upstream modulo the node table, which is checked semantically, and modulo the canonical rewrites; a behaviour-preserving rewrite outside them (e.g. another defer/recover structure) is still reported (stated limitation).", "4 C14"),
  "C15": ("path-condition rules on ParseFile (nil file never decorated, parse error always reported), nil-result and nil-file rules, resolver file-argument provenance, optional-child guards taken from go/ast.Walk, assertion and coverage rules, map-allocation rule, index proofs (loop-bounded, constant-bounded) with a small inventory, classified inventory of explicit panic sites",
          "Decides the type- and nil-related panic sources for all inputs; the positional 'no decoration found' panics in link() are not decided (new unclassified panic sites are reported as undecided).", "4 C15"),
- "C16": ("lockset analysis over mutex-guarded fields (with caller-holds inference), global-write and goroutine/channel scan, map-iteration order classification with propositional comparator totality (all pairs of returns; comparator functions and multi-statement literals; parallel-slice reads rejected), cache-completeness rule, store classification by declaring package",
+ "C16": ("lockset analysis over mutex-guarded fields (with caller-holds inference), global-write and goroutine/channel scan, map-iteration order classification with propositional comparator totality (all pairs of returns; comparator functions and multi-statement literals; parallel-slice reads rejected), cache-completeness rule, store classification by declaring package; every package-name resolver read-only (no store through the receiver), handed-out per-file buffers never truncated and reused, shared Restorer/Decorator fields written only as documented (Fset default under a nil test)",
          "Decides race-freedom of dst's own shared state (resolver cache, package-level tables) and absence of map-order dependence in the in-scope packages; the standard library's internals are trusted.", "4 C16"),
  "C17": ("error-discipline rule over all error-returning call sites + store classification + CFG reachability in updateImports (no store before an error return)",
          "Decides that resolver/parse errors surface and that no tree is modified on a failing path; retry equality follows only together with C16.", "4 C17"),
- "C18": ("ordering analysis of the four object/scope converters (memo lookup, registration before recursion, field and type-switch-arm completeness) + canonical-form equality of resolve.go/scope.go with GOROOT go/ast modulo position erasure (same canonical rewrites as C14) + file-scoping rule on the deferred Extras pass of RestoreFile",
-         "Decides the structural conditions under which the memoised conversion is a graph isomorphism and that the package builder is upstream's code without positions; concrete graphs are not evaluated. One known defect, listed as two findings (Extras: the deferred Decl/Data nodes of other files are restored into this file).", "4 C18"),
+ "C18": ("ordering analysis of the four object/scope converters (memo lookup, registration before recursion, field and type-switch-arm completeness) + canonical-form equality of resolve.go/scope.go with GOROOT go/ast modulo position erasure (same canonical rewrites as C14) + file-scoping rule on the deferred Extras pass of RestoreFile and on decorateObject (a declaring node of another file is not converted with this file's tables: known finding)",
+         "Decides the structural conditions under which the memoised conversion is a graph isomorphism and that the package builder is upstream's code without positions; concrete graphs are not evaluated. Two known defects, each listed as two findings (Extras: the deferred Decl/Data nodes of other files are restored into this file; decorateObject: declaring nodes of other files are converted with this file's tables).", "4 C18"),
  "C19": ("abstract interpretation of the five list methods over a two-atom sequence domain with emptiness facts from branch conditions and capacity-clipped slices, plus an array-segment domain with symbolic bounds for in-place updates (copy / re-slice of the receiver's array)",
          "Decides list semantics and non-aliasing for every call sequence (methods are functions of old contents and argument).", "4 C19"),
  "C20": ("who-may-call rule for file-system mutators + ordering/dataflow rule on (*Package).save",
